@@ -172,8 +172,8 @@ def run_harness(binname, mode_args, outdir, log, timeout=7200):
     return rc == 0
 
 
-def run_driver(cases_path, out_path, log):
-    exe = os.path.join(LEAN, ".lake", "build", "bin", "driver")
+def run_driver(pid, cases_path, out_path, log):
+    exe = os.path.join(LEAN, ".lake", "build", "bin", "driver_" + pid)
     if not os.path.exists(exe):
         return False
     with open(cases_path) as fi, open(out_path, "w") as fo:
@@ -237,7 +237,7 @@ def check(pid, tier="quick", seed=1, replay=None):
 
     # 2. proofs
     build_ok, failed_mods, errors = lake_build(lean_modules, log)
-    drv_ok, drv_failed, drv_err = lake_build(["driver"], log)
+    drv_ok, drv_failed, drv_err = lake_build(["driver_" + pid], log)
     audit_hits = source_audit(prop.get("lean_dirs", []))
     ax = axiom_audit(pid, lean_modules, thms, log) if build_ok else {}
     discharged = [t for t in thms if build_ok and ax.get(t, (False,))[0]]
@@ -278,7 +278,7 @@ def check(pid, tier="quick", seed=1, replay=None):
             c = read_lines(os.path.join(d, "cases.txt"))
             i = read_lines(os.path.join(d, "impl.txt"))
             t = read_lines(os.path.join(d, "tags.txt"))
-            dr_ok = run_driver(os.path.join(d, "cases.txt"), os.path.join(d, "model.txt"), log)
+            dr_ok = run_driver(pid, os.path.join(d, "cases.txt"), os.path.join(d, "model.txt"), log)
             m = read_lines(os.path.join(d, "model.txt"))
             if not dr_ok or len(m) != len(c) or len(i) != len(c):
                 harness_ok = False
@@ -376,8 +376,8 @@ def check(pid, tier="quick", seed=1, replay=None):
         "coverage": {
             "obligations": max(len(thms), 1) if thms else 0,
             "discharged": len(discharged),
-            "checker_cmd": "cd lean && lake build %s driver && lake env lean .lake/Audit_%s.lean  # #print axioms per obligation%s"
-                           % (" ".join(lean_modules), pid, "; lake env leanchecker" if tier == "thorough" else ""),
+            "checker_cmd": "cd lean && lake build %s driver_%s && lake env lean .lake/Audit_%s.lean  # #print axioms per obligation%s"
+                           % (" ".join(lean_modules), pid, pid, "; lake env leanchecker" if tier == "thorough" else ""),
             "trusted_base": [
                 "Lean 4.33.0 kernel",
                 "axioms: " + ", ".join(sorted(ALLOWED_AXIOMS)) + ("; plus " + ", ".join(nonstd_axioms) if nonstd_axioms else ""),
